@@ -21,3 +21,18 @@ func (v *VerifJobCounter) Set(n int) int64 { return v.c.set(n) }
 func (v *VerifJobCounter) None() bool      { return v.c.none() }
 func (v *VerifJobCounter) Take() bool      { return v.c.take() }
 func (v *VerifJobCounter) Raw() int64      { return v.c.num.Load() }
+
+// VerifIterationState wraps the unexported per-worker iteration state.
+type VerifIterationState struct{ s *iterationState }
+
+func (s *ActiveScenario) VerifNewIterationState() *VerifIterationState {
+	return &VerifIterationState{s: s.newIterationState()}
+}
+
+// VerifIterate does what a pool worker does for one iteration: reset the handle, run.
+func (s *ActiveScenario) VerifIterate(v *VerifIterationState, id string) {
+	v.s.t.Reset(id)
+	s.Run(v.s)
+}
+
+func (v *VerifIterationState) Failed() bool { return v.s.t.Failed() }
